@@ -97,7 +97,7 @@ func (p paramSet) acceptedByRule() bool {
 
 // op is one harness action inside a block (after BeginBlock).
 type op struct {
-	Kind   string    `json:"k"` // params | toggle | topup | send-tx | send-pool-tx | send-fc-tx | keeper-send | mint-user
+	Kind   string    `json:"k"` // params | toggle | bank-switch | topup | send-tx | send-pool-tx | send-fc-tx | keeper-send | mint-user
 	Route  string    `json:"r,omitempty"`
 	Params *paramSet `json:"p,omitempty"`
 	Coins  []rc      `json:"c,omitempty"`
@@ -404,6 +404,24 @@ func genPlan(rng *rand.Rand, blocks int) plan {
 		}
 		if rng.Intn(100) < 7 {
 			ops = append(ops, op{Kind: "toggle", Route: genRoute(rng)})
+		}
+		if rng.Intn(100) < 6 {
+			// the bank module's own transfer switch (a parameter of ANOTHER module): user transfers of a rewarded denomination,
+			// or of everything, are switched off / on again. Vesting is a module-to-module movement and is not subject to it.
+			var cand []string
+			for d := range rewardSums(cur) {
+				if sdk.ValidateDenom(d) == nil {
+					cand = append(cand, d)
+				}
+			}
+			sortStrings(cand)
+			o := op{Kind: "bank-switch", Route: []string{"denom-off", "denom-off", "default-off", "all-on"}[rng.Intn(4)]}
+			if len(cand) > 0 {
+				o.Coins = []rc{{cand[rng.Intn(len(cand))], sdk.OneInt()}}
+			} else if o.Route == "denom-off" {
+				o.Route = "default-off"
+			}
+			ops = append(ops, o)
 		}
 		if rng.Intn(100) < 10 {
 			// top the pool up, preferably with rewarded denominations
